@@ -28,7 +28,7 @@ inductive Ty
   deriving DecidableEq, Repr, Inhabited
 
 /-- `lambda x: x.startswith("unk__")` -/
-def isUnkName (s : String) : Bool := "unk__".isPrefixOf s
+def isUnkName (s : String) : Bool := "unk__".toList.isPrefixOf s.toList
 
 /-- `_strip_dim_symbol_shape`: `None if isinstance(x, str) and pred(x) else x` -/
 def stripDim : Dim → Dim
